@@ -7,6 +7,7 @@ import (
 	"fmt"
 	"io"
 	"log"
+	"math"
 	"os"
 	"sync"
 	"time"
@@ -55,6 +56,9 @@ const (
 
 	cacheFileMagic   = "P2CC"
 	cacheFileVersion = 1
+
+	// stream id of a record whose stream was invalidated
+	invalidStreamID = math.MaxUint64
 )
 
 func readVarInt(r io.ByteReader) (uint64, int, error) {
@@ -280,6 +284,15 @@ func NewCacheFile(cachePath string) (*cacheFile, error) {
 		}
 		res.fileSize += streamHeaderSize
 
+		if streamSection.StreamID == invalidStreamID {
+			// the record was invalidated, its space is free
+			if res.freeSize == 0 || res.freeStart > res.fileSize-streamHeaderSize {
+				res.freeStart = res.fileSize - streamHeaderSize
+			}
+			res.freeSize += streamHeaderSize + int64(streamSize)
+			res.fileSize += int64(streamSize)
+			continue
+		}
 		if info, ok := res.streamInfos[streamSection.StreamID]; ok {
 			if res.freeSize == 0 || res.freeStart > info.offset-streamHeaderSize {
 				res.freeStart = info.offset - streamHeaderSize
@@ -730,6 +743,12 @@ func (cachefile *cacheFile) InvalidateChangedStreams(streams *bitmask.LongBitmas
 		// delete the stream from the in-memory index
 		// it will be re-added when the stream is converted again
 		if info, ok := cachefile.streamInfos[uint64(streamID)]; ok {
+			// mark the record as invalid in the file as well, it would be picked up again when the file is reopened
+			tombstone := [streamHeaderSize]byte{}
+			binary.LittleEndian.PutUint64(tombstone[:], invalidStreamID)
+			if _, err := cachefile.file.WriteAt(tombstone[:], info.offset-streamHeaderSize); err != nil {
+				log.Printf("Failed to invalidate stream %d in cache file %q: %v", streamID, cachefile.cachePath, err)
+			}
 			cachefile.freeSize += int64(info.size) + streamHeaderSize
 			if cachefile.freeStart > info.offset-streamHeaderSize {
 				cachefile.freeStart = info.offset - streamHeaderSize
